@@ -74,6 +74,7 @@ ASSUMPTIONS = ['statement-line granularity inside src/DocumentTemplate and src/T
                'scheduler, they share nothing between threads']
 SHARD_TIMEOUT = {'quick': 900, 'thorough': 3400}
 NSHARDS = {'quick': 16, 'thorough': 64}
+PIN_CPU = True      # one CPU per shard: thread hand-offs across CPUs are 30x dearer in this sandbox (vlib/run.py)
 
 
 def plan(tier, seed):
